@@ -757,7 +757,7 @@ fn phase_c_item(u: &U, slots: &[usize]) -> Acc {
                         }
                         let (o, _) = observe(u, &bus, true);
                         if o != clean {
-                            acc.v(format!("rejected duplicate altered earlier emissions ({same} payload): {}", differing_policy(u, &o, &clean, pol)),
+                            acc.v(format!("duplicate emission altered earlier emissions ({same} payload): {}", differing_policy(u, &o, &clean, pol)),
                                 { let d = dupcase(); json!({"case": d["case"], "dup": d["dup"], "got": fmt_out(&o), "want": fmt_out(&clean)}) });
                         }
                     }
